@@ -70,6 +70,7 @@ def parseEvent (ws : List String) : Option Event :=
     let (ps, _) ← parsePRs n rest
     pure (.github { targetSha := t, prs := ps })
   | ["batch"] => some .batch
+  | ["ghfail"] => some .githubFailed
   | ["flag", "g"] => some (.flag .github)
   | ["flag", "b"] => some (.flag .batch)
   | ["flag", "all"] => some (.flag .all)
